@@ -288,7 +288,7 @@ impl Check for C17 {
     }
     fn scenarios(&self, tier: Tier) -> u64 {
         match tier {
-            Tier::Quick => 240,
+            Tier::Quick => 400,
             Tier::Thorough => 12000,
         }
     }
